@@ -1809,10 +1809,18 @@ export class AnyOfDiscriminatedRuntype extends BaseRuntype {
     // a variant whose discriminator is itself a union ("a" | "b") is mapped by several keys: it gets
     // one definition, named after the first of them
     const refOfVariant = new Map<Runtype, string>();
+    // two discriminator values can leave the same component name part ("a-b" and "a_b", "ab" and "Ab"):
+    // the later one is numbered, so that each variant keeps a definition of its own
+    const usedNameParts = new Set<string>();
     return Object.entries(this.schemaMapping).map(([key, schema]) => {
+      let nameKey = key;
+      for (let n = 1; usedNameParts.has(AnyOfDiscriminatedRuntype.sanitizeComponentNamePart(nameKey)); n++) {
+        nameKey = `${key} ${n}`;
+      }
+      usedNameParts.add(AnyOfDiscriminatedRuntype.sanitizeComponentNamePart(nameKey));
       let ref = refOfVariant.get(schema);
       if (ref == null) {
-        ref = this.ensureSchemaVariantRef(schema, key, unionHash, ctx);
+        ref = this.ensureSchemaVariantRef(schema, nameKey, unionHash, ctx);
         refOfVariant.set(schema, ref);
       }
       return { key, ref };
